@@ -5,14 +5,16 @@
 extern "C" {
 #endif
 #ifndef CAP
-#define CAP 3
+#define CAP 6
 #endif
-#define NR 4                 /* rows of the LP */
+#define NR (CAP + 1)         /* rows of the LP */
 #define NC (2 + CAP)         /* columns: at most 2 original + CAP slack columns */
 extern int g_norig, g_nslack;                 /* original columns, slack columns (numColsRational() = sum) */
 extern int g_slackrow[CAP];                   /* _slackCols.colVector(i).index(0) */
 extern int g_pf, g_ray, g_df, g_hasbasis;     /* sol.isPrimalFeasible(), hasPrimalRay(), isDualFeasible(), _hasBasis */
-extern long long g_slacks[NR], g_primal[NC], g_lower[NC], g_upper[NC], g_lhs[NR], g_rhs[NR];   /* Rational = ordered-group integer */
+typedef unsigned long long ue_rat;           /* Rational modelled as the ring Z/2^64 (only -=, unary minus, != 0 occur) */
+extern ue_rat g_slacks[NR], g_primal[NC], g_lower[NC], g_upper[NC], g_lhs[NR], g_rhs[NR];
+extern int gi, gj;                            /* ghost slack index / ghost column */
 extern int g_dim_primal, g_dim_ray, g_dim_redcost;          /* current dimensions (reDim) */
 extern int g_rowstat[NR], g_colstat[NC], g_ncolstat;        /* basis statuses (VarStatus enumerators), size of _basisStatusCols */
 extern int g_rowtype[NR], g_coltype[NC], g_ncoltype;
